@@ -6,10 +6,27 @@
   neighbour a word character), each once, in increasing order; a letter is suppressed iff it
   lies inside a hit of the accept scan; the context excerpt marks the same characters as
   offset/length select in the submitted text (tabs and line breaks shown as blanks), also at
-  both ends of the text.  The accept pattern construction and the equation-punctuation
-  pattern are checked against an independent reference scan.
+  both ends of the text.
+
+  Model/Checks.lean + Proofs/Checks.lean (hand-written matchers for the two regular-expression
+  scans, tied to `checks.py` by the correspondence operations ACCEPTHITS / EQPUNCT):
+  * `C20_accept_split`, `C20_accept_hits_spec`, `C20_single_letters_e2e`: the accept string is
+    split at `|`; the hits are exactly the occurrences of the non-empty alternatives (after
+    `~` -> U+00A0, `\,` -> U+202F) with a word boundary where the alternative starts / ends with
+    a letter; a letter is reported iff it is isolated and no such occurrence covers it.
+  * `C20_eqpunct_marks_placeholder`, `C20_eqpunct_sound`, `C20_eqpunct_complete`,
+    `C20_eqpunct_excuses_regex`: every message of --equation-punctuation starts with a
+    placeholder occurrence (word boundaries on both sides), lies in the text, messages are
+    disjoint and increasing; a reported placeholder is followed neither by a full stop, nor by
+    another placeholder, nor by a lower-case word (each after the optional white space /
+    `,;:`); every placeholder occurrence without such an excuse at an offset that does not lie
+    strictly inside an earlier match is reported.
+  NOT covered: empty placeholders and placeholders containing regular-expression operators (the
+  code does not escape them; the real lists contain neither — asserted by the harness).
 -/
 import YalafiVerif.Proofs.Shell
+import YalafiVerif.Proofs.Checks
+import YalafiVerif.Generated.Tables
 namespace Yalafi
 
 theorem C20_single_exact (T : Tables) (plain : Str) (i : Nat) :
@@ -32,5 +49,159 @@ theorem C20_context_marks (txt : Str) (offset length : Nat) (h : offset + length
     ((c.text.drop c.offset).take c.length) =
       ((txt.drop offset).take length).map (fun ch => if ch == '\t' || ch == '\n' then ' ' else ch) :=
   createContext_marks txt offset length h hl
+
+/-! ### the accept patterns (Model/Checks.lean) -/
+
+/-- `splitBar` is `str.split('|')`: joining the pieces with `|` gives the accept string back and
+    no piece contains `|` -/
+theorem C20_accept_split (accept : Str) :
+    ['|'].intercalate (splitBar accept) = accept ∧ ∀ x ∈ splitBar accept, '|' ∉ x :=
+  ⟨splitBar_join accept, splitBar_no_bar accept⟩
+
+/-- `(b, e)` is a hit of the accept scan iff a non-empty alternative `s` of the accept string,
+    after the two substitutions, stands at `plain[b:e]` (`AcceptOcc`: literally, with `\b` in front
+    if it starts with a letter and `\b` behind if it ends with one) -/
+theorem C20_accept_hits_spec (T : Tables) (accept plain : Str) (b e : Nat) :
+    (b, e) ∈ acceptHits T accept plain ↔
+      ∃ s ∈ splitBar accept, s ≠ [] ∧ e = b + (acceptSubst s).length ∧
+        ((plain.drop b).take (acceptSubst s).length = acceptSubst s ∧
+         (optAlpha T (acceptSubst s).head? = true → wordBoundaryAt T plain b = true) ∧
+         (optAlpha T (acceptSubst s).getLast? = true → wordBoundaryAt T plain (b + (acceptSubst s).length) = true)) :=
+  acceptHits_spec T accept plain b e
+
+/-- end to end for `--single-letters accept`: offset `i` is reported iff it holds an isolated
+    letter and no occurrence of an accepted alternative covers it -/
+theorem C20_single_letters_e2e (T : Tables) (accept plain : Str) (i : Nat) :
+    i ∈ singleLetterMessages T accept plain ↔
+      (i < plain.length ∧
+        singleAt T (if i = 0 then none else plain[i - 1]?) (plain.getD i ' ') (plain[i + 1]?) = true) ∧
+      ¬ ∃ s ∈ splitBar accept, s ≠ [] ∧ ∃ b, AcceptOcc T (acceptSubst s) plain b ∧
+          b ≤ i ∧ i < b + (acceptSubst s).length :=
+  singleLetterMessages_spec T accept plain i
+
+/-- the word boundaries in plain words, on tables where every letter is a word character: in
+    front of an alternative that starts with a letter stands no word character (or nothing),
+    behind an alternative that ends with a letter likewise -/
+theorem C20_accept_boundaries (T : Tables) (hT : alphaIsWord T = true) (a plain : Str) (b : Nat)
+    (h : (plain.drop b).take a.length = a) :
+    (optAlpha T a.head? = true →
+      (wordBoundaryAt T plain b = true ↔ optWord T (prevChar plain b) = false)) ∧
+    (optAlpha T a.getLast? = true →
+      (wordBoundaryAt T plain (b + a.length) = true ↔ optWord T plain[b + a.length]? = false)) :=
+  acceptOcc_boundaries T hT a plain b h
+
+/-! ### equation punctuation -/
+
+/-- every message `(o, l)` starts with an occurrence of a placeholder `r` (`EquOcc`: not empty,
+    `plain[o : o+|r|] = r`, `\b` on both sides), covers at least the placeholder and lies in the
+    text; the messages are pairwise disjoint and increasing -/
+theorem C20_eqpunct_marks_placeholder (T : Tables) (repls : List Str) (plain : Str) :
+    (∀ o l, (o, l) ∈ eqPunctMessages T repls plain →
+      ∃ r ∈ repls, (r ≠ [] ∧ (plain.drop o).take r.length = r ∧
+          wordBoundaryAt T plain o = true ∧ wordBoundaryAt T plain (o + r.length) = true) ∧
+        r.length ≤ l ∧ o + l ≤ plain.length) ∧
+    (eqPunctMessages T repls plain).Pairwise (fun a b => a.1 + a.2 ≤ b.1) :=
+  ⟨fun o l h => eqPunct_marks_placeholder T repls plain o l h, eqPunct_disjoint T repls plain⟩
+
+/-- a reported placeholder has none of the three excuses; no other placeholder that stands at
+    the same offset is followed by a placeholder either; the message extends over the
+    placeholder and the white space behind it or, if a word that does not start with a lower-case
+    letter follows (after white space, optional `,;:`, white space), up to the end of that word -/
+theorem C20_eqpunct_sound (T : Tables) (repls : List Str) (plain : Str) (o l : Nat)
+    (h : (o, l) ∈ eqPunctMessages T repls plain) :
+    ∃ r ∈ repls, EquOcc T plain o r ∧
+      ¬ FollowsDot plain (o + r.length) ∧
+      ¬ FollowsEqu T repls plain (o + r.length) ∧
+      ¬ FollowsLowerWord T plain (o + r.length) ∧
+      (∀ r' ∈ repls, EquOcc T plain o r' → ¬ FollowsEqu T repls plain (o + r'.length)) ∧
+      o + l = (if wordRun T plain (afterSep plain (o + r.length)) = 0
+                then o + r.length + wsRun plain (o + r.length)
+                else afterSep plain (o + r.length) + wordRun T plain (afterSep plain (o + r.length))) :=
+  eqPunct_sound T repls plain o l h
+
+/-- the excuses in the words of the regular expression: `wsRun` is the maximal run of white space;
+    a full stop follows iff `\s*\.` can match; on tables where white space and `, ; : .` are no
+    word characters, a lower-case word follows iff `\s*[,;:]?\s*` can be matched such that a
+    `[^\W0-9_]` character with `islower()` comes next -/
+theorem C20_eqpunct_excuses_regex (T : Tables) (plain : Str) (e : Nat) :
+    ((∀ i, i < wsRun plain e → ∃ c, plain[e + i]? = some c ∧ isSpace c = true) ∧
+      (∀ c, plain[e + wsRun plain e]? = some c → isSpace c = false)) ∧
+    (FollowsDot plain e ↔ ∃ k, WsAt plain e k ∧ plain[e + k]? = some '.') ∧
+    (checksClassesOk T = true →
+      (FollowsLowerWord T plain e ↔
+        ∃ i k j c, WsAt plain e i ∧ (k = 0 ∨ (k = 1 ∧ optPunct plain[e + i]? = true)) ∧
+          WsAt plain (e + i + k) j ∧ plain[e + i + k + j]? = some c ∧
+          isLetterish T c = true ∧ T.isLower c = true)) :=
+  ⟨wsRun_spec plain e, followsDot_iff plain e, fun h => followsLowerWord_iff T h plain e⟩
+
+/-- completeness: let the placeholders standing at offset `p` be `r :: rest` (in the order of
+    the list), let `p` not lie strictly inside a match that the left-to-right scan found earlier
+    (`eqMatches`: start, end, message? of every match — such an offset is never tried as a start),
+    let none of the candidates be followed by a placeholder and the first one neither by a full
+    stop nor by a lower-case word: then a message at `p` is produced -/
+theorem C20_eqpunct_complete (T : Tables) (repls : List Str) (plain : Str) (p : Nat) (r : Str) (rest : List Str)
+    (hc : equCands T repls plain p = r :: rest)
+    (hfree : ∀ m ∈ eqMatches T repls plain, ¬ (m.1 < p ∧ p < m.2.1))
+    (hequ : ∀ r' ∈ r :: rest, ¬ FollowsEqu T repls plain (p + r'.length))
+    (hdot : ¬ FollowsDot plain (p + r.length))
+    (hlow : ¬ FollowsLowerWord T plain (p + r.length)) :
+    ∃ l, (p, l) ∈ eqPunctMessages T repls plain ∧ r.length ≤ l :=
+  ⟨_, eqPunct_complete T repls plain p r rest hc hfree hequ hdot hlow, by
+    have hocc := ((mem_equCands T repls plain p r).mp (by rw [hc]; simp)).2
+    have := tailMatch_bounds T plain (p + r.length) hocc.bound.1
+    omega⟩
+
+/-- the candidates at `p` are the placeholders of the list that occur there, in list order -/
+theorem C20_eqpunct_cands (T : Tables) (repls : List Str) (plain : Str) (p : Nat) (r : Str) :
+    r ∈ equCands T repls plain p ↔ r ∈ repls ∧ EquOcc T plain p r :=
+  mem_equCands T repls plain p r
+
+/-- the matches of the scan are the matches at their start offsets, disjoint and increasing -/
+theorem C20_eqpunct_matches (T : Tables) (repls : List Str) (plain : Str) :
+    (∀ m ∈ eqMatches T repls plain, eqMatchAt T repls plain m.1 = some (m.2.1, m.2.2)) ∧
+    (eqMatches T repls plain).Pairwise (fun a b => a.1 ≤ a.2.1 ∧ a.2.1 ≤ b.1) :=
+  ⟨fun m hm => (eqScan_mem T repls plain _ 0 m hm).2, eqScan_pairwise T repls plain _ 0⟩
+
+/-! ### instances on the tables translated from the running interpreter -/
+
+/-- white space and `, ; : .` are no word characters (assumption of `tailMatch`) -/
+theorem C20_classes_current : checksClassesOk Generated.theTables.toTables = true := by
+  decide +kernel
+
+/-- every letter (`str.isalpha`) is a word character (`\w`) -/
+theorem C20_alpha_word_current : alphaIsWord Generated.theTables.toTables = true := by
+  decide +kernel
+
+section Examples
+open Generated
+
+example : eqMatches theTables.toTables ["A-A-A".toList, "B-B-B".toList, "C-C-C".toList]
+      "A-A-A , B-B-B and C-C-C\nNext".toList = [(0, 5, false), (8, 17, false), (18, 28, true)] := by
+  decide +kernel
+
+example : eqPunctMessages theTables.toTables ["A-A-A".toList, "B-B-B".toList, "C-C-C".toList]
+      "A-A-A , B-B-B and C-C-C\nNext".toList = [(18, 10)] := by
+  decide +kernel
+
+/-- full stop, lower-case word, upper-case word after `;`, end of text, glued to a word -/
+example : eqPunctMessages theTables.toTables ["A-A-A".toList, "B-B-B".toList]
+      "A-A-A . B-B-B is; A-A-A ; Then xB-B-B B-B-B".toList = [(18, 12), (38, 5)] := by
+  decide +kernel
+
+/-- an occurrence strictly inside an earlier match is not tried (hypothesis `hfree`) -/
+example : eqMatches theTables.toTables ["A-A-A".toList] "A-A-A-A-A".toList = [(0, 5, true)] := by
+  decide +kernel
+
+example : acceptHits theTables.toTables "a b|b c|z.~B.||".toList "a b c z. B. xa b".toList
+      = [(0, 3), (2, 5), (6, 11)] := by
+  decide +kernel
+
+example : singleLetterMessages theTables.toTables "a b|b c|z.~B.||".toList "a b c z. B. xa b".toList = [15] := by
+  decide +kernel
+
+example : singleLetterMessages theTables.toTables "".toList "a b c z. B. xa b".toList = [0, 2, 4, 6, 9, 15] := by
+  decide +kernel
+
+end Examples
 
 end Yalafi
